@@ -407,15 +407,12 @@ theorem distinct_export (s : State) (hwf : WF s) (hc : CtrOK s) : Distinct (expo
     rw [e, y] at x
     cases x; exact hne rfl
 
-/-- **round trip of one state**: for a state with consistent tables (`WF`, `OwnIdx`, `CtrOK` — all
-invariants of every history) and valid fields, whose tokens all have `maxSupply ≥ initialSupply`
-and a valid symbol and min unit and whose base-fee denom is a registered symbol: the export
-validates, the import succeeds, every query is preserved and the export is a fixpoint -/
-theorem roundtrip (s : State) (hwf : WF s) (hown : OwnIdx s) (hc : CtrOK s) (hg : GenOK s)
-    (h9 : maxBelowInit s = false) (h10 : feeDenomUnregistered s = false) (h11 : badIdentity s = false) :
-    RoundTrip s := by
-  have hval := validate_export s hg hwf h9 h11
-  refine ⟨hval, ?_⟩
+/-- the four tables `InitGenesis` rebuilds from the exported tokens answer every lookup like the
+exported state's -/
+theorem import_tables (s : State) (hwf : WF s) (hown : OwnIdx s) (hc : CtrOK s) (hg : GenOK s) :
+    ∃ tb, addTokens {} (exportTokens s) = some tb ∧
+      (∀ k, AMap.get? tb.tokens k = AMap.get? s.tokens k) ∧ (∀ k, AMap.get? tb.minUnits k = AMap.get? s.minUnits k) ∧
+      (∀ k, AMap.get? tb.owners k = AMap.get? s.owners k) ∧ (∀ k, AMap.get? tb.contracts k = AMap.get? s.contracts k) := by
   obtain ⟨tb, hadd, hb⟩ := addTokens_spec (exportTokens s) {} (by intro t _; simp) (distinct_export s hwf hc)
   -- lookups of the rebuilt tables
   have etok : ∀ k, AMap.get? tb.tokens k = AMap.get? s.tokens k := by
@@ -479,6 +476,10 @@ theorem roundtrip (s : State) (hwf : WF s) (hown : OwnIdx s) (hc : CtrOK s) (hg 
         obtain ⟨sym, hs⟩ := mem_exportTokens ht
         have := hc.fwd sym t hs h0
         rw [e, hk] at this; cases this
+  exact ⟨tb, hadd, etok, emu, eown, ectr⟩
+
+/-- the burned tallies `InitGenesis` rebuilds answer every lookup like the exported state's -/
+theorem import_burned (s : State) : ∀ d, AMap.get? (addBurned [] (exportBurned s)) d = AMap.get? s.burned d := by
   -- the burned tallies
   have hbn : ((exportBurned s).map (·.1)).Nodup := by
     unfold exportBurned
@@ -506,6 +507,19 @@ theorem roundtrip (s : State) (hwf : WF s) (hown : OwnIdx s) (hc : CtrOK s) (hg 
       have := (mem_keys_iff _ _).mp ((mem_sortDedup _ _).mp hd')
       obtain ⟨v, hv⟩ := this
       rw [hv] at hk; cases hk
+  exact eburn
+
+/-- **round trip of one state**: for a state with consistent tables (`WF`, `OwnIdx`, `CtrOK` — all
+invariants of every history) and valid fields, whose tokens all have `maxSupply ≥ initialSupply`
+and a valid symbol and min unit and whose base-fee denom is a registered symbol: the export
+validates, the import succeeds, every query is preserved and the export is a fixpoint -/
+theorem roundtrip (s : State) (hwf : WF s) (hown : OwnIdx s) (hc : CtrOK s) (hg : GenOK s)
+    (h9 : maxBelowInit s = false) (h10 : feeDenomUnregistered s = false) (h11 : badIdentity s = false) :
+    RoundTrip s := by
+  have hval := validate_export s hg hwf h9 h11
+  refine ⟨hval, ?_⟩
+  obtain ⟨tb, hadd, etok, emu, eown, ectr⟩ := import_tables s hwf hown hc hg
+  have eburn := import_burned s
   -- the final assertion of InitGenesis
   have hfee : AMap.contains tb.tokens s.params.feeDenom = true := by
     unfold feeDenomUnregistered at h10
@@ -546,5 +560,32 @@ theorem roundtrip (s : State) (hwf : WF s) (hown : OwnIdx s) (hc : CtrOK s) (hg 
     apply List.map_congr_left
     intro d _
     rw [hobs.burned]
+
+/-- whenever the import of a state's own export succeeds, every query is preserved — with no
+assumption on the classes (they only decide *whether* it succeeds) -/
+theorem reimport_ok_obsEq (s s' : State) (hwf : WF s) (hown : OwnIdx s) (hc : CtrOK s) (hg : GenOK s)
+    (hr : reimport s = .ok s') : ObsEq s' s := by
+  obtain ⟨tb, hadd, etok, emu, eown, ectr⟩ := import_tables s hwf hown hc hg
+  have eburn := import_burned s
+  unfold reimport importGenesis at hr
+  split at hr; · cases hr
+  have hadd' : addTokens {} (exportGenesis s).tokens = some tb := hadd
+  have eburn' : ∀ d, AMap.get? (addBurned [] (exportGenesis s).burned) d = AMap.get? s.burned d := eburn
+  rw [hadd'] at hr
+  simp only at hr
+  cases hfee : AMap.contains tb.tokens (exportGenesis s).params.feeDenom with
+  | false => simp [hfee] at hr
+  | true =>
+  simp only [hfee, Bool.not_true, Bool.false_eq_true, if_false, Except.ok.injEq] at hr
+  subst hr
+  exact
+    { tokens := etok, minUnits := emu, owners := eown, contracts := ectr,
+      burned := by intro d; simp only [burnedOf, AMap.getD]; rw [eburn'],
+      burnedKeys := by
+        intro d
+        rw [mem_keys_iff, mem_keys_iff]
+        simp only
+        rw [eburn'],
+      params := rfl, bank := rfl, nonce := rfl, evm := rfl, fault := rfl, env := rfl }
 
 end Irismod.Proofs.TokenGenesis
